@@ -19,7 +19,9 @@ Monitors (all observe at the boundary):
     likelihood with minus its derivatives;
   * the formula objects after the call: every Beta object of a free parameter carries
     the estimate, every fixed one its declared value.
-Non-convergence is recorded, never a violation.
+Non-convergence is recorded, never a violation. Every estimation runs in its own forked
+child (sticky engine error flag). Two hand-made directed cases reproduce the recorded
+findings at every run (see findings/C07.md).
 """
 from __future__ import annotations
 
@@ -45,14 +47,19 @@ ASSUMPTIONS = [
     '(self-tested at every run against complex-step / finite differences, a per-row loop, least squares and a grid)',
     'BHHH of a weighted sample is sum_n w_n g_n g_n^T (one power of the weight, as the pinned engine computes it)',
     'KKT conditions are sufficient for a global maximum because every generated problem is concave',
-    '"converged" is judged with the relative projected gradient max_i |g_i| max(|x_i|,1)/max(|LL|,1) <= 1e-3 '
-    '(library criterion is the same quantity against tolerance 1.2e-4) and |LL - LL*| <= 1e-5 max(1,|LL*|)',
+    '"converged" is judged with the library\'s documented stopping quantity, recomputed with the oracle gradient: '
+    'max_i |g_i| max(|x_i|,1) / max(|LL(x)|,|LL(start)|,1) over the components not blocked by an active bound, '
+    'against 1e-3 (the library tests it against tolerance = 1.22e-4; measured maximum on the unchanged tree 1.22e-4)',
+    'agreement on the maximum value: |LL - LL*| <= 1e-5 max(1,|LL*|) f^2 with f = max(1, |LL(start)| / (3 max(1,|LL*|))) '
+    '(the LL gap is second order in the gradient and the library scales its gradient test by |LL(start)|; measured maximum '
+    'on the unchanged tree 8e-2 of this tolerance)',
+    'every estimation runs in its own forked child (the engine is unusable after one engine-side error)',
     'algorithms that ignore bounds (LS-*/TR-*) are compared with the unconstrained maximum',
 ]
-MIN_DISTINCT = {'quick': 800, 'thorough': 12000}
-CASE_TIMEOUT = 180
+MIN_DISTINCT = {'quick': 800, 'thorough': 4000}
+CASE_TIMEOUT = 300
 
-N_CASES = {'quick': 108, 'thorough': 2400}
+N_CASES = {'quick': 108, 'thorough': 600}
 
 ALGOS = ['scipy', 'LS-newton', 'TR-newton', 'LS-BFGS', 'TR-BFGS', 'simple_bounds', 'simple_bounds_newton',
          'simple_bounds_BFGS', 'automatic']
@@ -138,6 +145,7 @@ def cases(seed, tier):
     # hand-made problems that reproduce the recorded findings at every run, whatever the seed
     out.insert(0, {'seed': seed, 'i': 900001, 'directed': 'capped_at_start', 'config': 'inactive', 'start': 'default'})
     out.insert(1, {'seed': seed, 'i': 900002, 'directed': 'nan_linesearch', 'config': 'none', 'start': 'default'})
+    out.insert(2, {'seed': seed, 'i': 900003, 'directed': 'hessian_fallback', 'config': 'none', 'start': 'default'})
     return out
 
 
@@ -267,8 +275,7 @@ def run_case(case):
         out = run_forked(lambda _a, algo=algo, mode=mode: _one_run(ctx, algo, mode), None, CASE_TIMEOUT / 3)
         tag = f'{algo}/{mode}'
         if out.get('timeout'):
-            rec.c('run_timeouts')
-            rec.inconc(f'watchdog fired in {tag} of case {case["i"]}')
+            rec.c('run_timeouts')  # never a verdict; too many of them make the run inconclusive (finalize)
             continue
         if 'crash_signal' in out:
             if out['crash_signal'] == 9:
@@ -377,10 +384,31 @@ def _one_run(ctx, algo, mode):
         os.chdir(d)
     del _CALLS[:]
     unsafeguarded = algo in ('LS-newton', 'LS-BFGS', 'TR-newton', 'TR-BFGS')
+    inject_nan_hessian = case.get('directed') == 'hessian_fallback'
     try:
         bg = bio.BIOGEME(db, formulas, parameters=pr)
         bg.modelName = f'c07_{case["i"]}'
-        res = getattr(bg, mode)()
+        if inject_nan_hessian:
+            # fault injection at the boundary: the analytical Hessian of the FINAL evaluation of estimate()
+            # (the only call with hessian=True and bhhh=True) fails numerically
+            from biogeme.function_output import BiogemeFunctionOutput
+
+            real_eval = bg.calculate_likelihood_and_derivatives
+
+            def faulty(x, scaled, hessian=False, bhhh=False, batch=None):
+                o = real_eval(x, scaled=scaled, hessian=hessian, bhhh=bhhh, batch=batch)
+                if hessian and bhhh:
+                    rec.c('nan_hessian_injected')
+                    return BiogemeFunctionOutput(function=o.function, gradient=o.gradient,
+                                                 hessian=np.full_like(np.asarray(o.hessian, dtype=float), np.nan), bhhh=o.bhhh)
+                return o
+
+            bg.calculate_likelihood_and_derivatives = faulty
+        try:
+            res = getattr(bg, mode)()
+        finally:
+            if inject_nan_hessian:
+                del bg.calculate_likelihood_and_derivatives
     except BaseException as e:  # noqa  (a concave model with a finite maximum must be estimable)
         import traceback
 
@@ -478,13 +506,22 @@ def _one_run(ctx, algo, mode):
                 viol(f'{label}-missing-after-estimate', f'results.data has no {label}')
                 continue
             got = np.asarray(got, dtype=float)
+            if label == 'hessian' and inject_nan_hessian:
+                # documented reaction to a non-finite analytical Hessian: "Finite differences is tried instead"
+                rec.c('hessian_fallback_observed')
+                if got.shape != ref.shape or not np.all(np.isfinite(got)) or np.max(np.abs(got - ref)) > 1e-4 * max(1.0, np.abs(ref).max()):
+                    viol('finite-difference-hessian-fallback-not-used',
+                         f'the analytical Hessian of the final evaluation was non-finite (injected); reported H={got.tolist()}, Hessian of the '
+                         f'likelihood at the estimates={ref.tolist()}, likelihood_finite_difference_hessian(betaValues)='
+                         f'{np.asarray(bg.likelihood_finite_difference_hessian(list(xlib))).tolist()}')
+                continue
             if got.shape != ref.shape or not np.all(np.isfinite(got)) or np.max(np.abs(got - ref)) > tol + 1e-9 * np.abs(ref).max():
                 viol(f'{label}-differs-from-derivative-at-estimates',
                      f'reported {label}={got.tolist()} oracle={ref.tolist()} (tolerance {tol:.3g})')
         try:
             fo = bg.calculate_likelihood_and_derivatives(list(xlib), scaled=False, hessian=True, bhhh=True)
             rec.ev()
-            if d.g is not None and d.H is not None and d.bhhh is not None and not (
+            if d.g is not None and d.H is not None and d.bhhh is not None and not inject_nan_hessian and not (
                     close(d.g, fo.gradient, 1e-9, 1e-9 * gscale) and close(d.H, fo.hessian, 1e-9, 1e-9 * max(1.0, np.abs(H).max()))
                     and close(d.bhhh, fo.bhhh, 1e-9, 1e-9 * max(1.0, np.abs(B).max()))):
                 viol('derivatives-differ-from-recomputed-on-same-object', 'g/H/bhhh differ from calculate_likelihood_and_derivatives(betaValues)')
@@ -644,6 +681,9 @@ def finalize(cov, tier):
               'weights_on', 'cases_with_iteration_limit'):
         if cov.get(k, 0) == 0:
             out.append(f'monitor / situation never observed: {k}')
+    runs = cov.get('runs_estimate', 0) + cov.get('runs_quick_estimate', 0)
+    if cov.get('run_timeouts', 0) > max(3, 0.01 * runs):
+        out.append(f'{cov["run_timeouts"]} estimations hit the per-run watchdog ({runs} completed)')
     rej = sum(v for k, v in cov.items() if k.startswith('rejected_'))
     tot = sum(v for k, v in cov.items() if k.startswith('config_')) + rej
     if tot and rej > 0.3 * tot:
@@ -652,3 +692,85 @@ def finalize(cov, tier):
     for a in ALGOS:
         cov[f'runs_by_config_{a}'] = ' '.join(f'{cfg}:{cov.pop(f"run_{a}_{cfg}", 0)}' for cfg in CONFIGS)
     return out
+
+
+# ---------------------------------------------------------------------------------------
+# thorough only: the repository's own tests as extra workload, with the generic C07
+# contracts attached (biomon/oracle/c07_pytest_plugin.py). Every file in its own pytest
+# process (one engine-side error poisons a process), cwd = scratch, log outside cwd
+# (tests/functions/test_biogeme.py deletes *.log in cwd).
+# ---------------------------------------------------------------------------------------
+REPO_TEST_FILES = ['functions/test_biogeme.py', 'functions/test_results.py', 'functions/test_optimization.py',
+                   'swissmetro/test_01.py', 'swissmetro/test_02.py', 'swissmetro/test_03.py', 'swissmetro/test_04.py',
+                   'swissmetro/test_09.py']
+REPO_TEST_TIMEOUT = 900
+
+
+def extra(seed, tier, workdir):
+    import json
+    import subprocess
+    import sys
+    import time
+
+    from .. import env
+
+    if tier != 'thorough':
+        return []
+    tests_root = os.path.join(os.path.dirname(env.SRC.rstrip('/')), 'tests')
+    if not os.path.isdir(tests_root):
+        tests_root = '/repo/tests'  # mutated copies hold src/ only; the tests are read from the repository
+    procs = []
+    for k, rel in enumerate(REPO_TEST_FILES):
+        path = os.path.join(tests_root, rel)
+        if not os.path.exists(path):
+            continue
+        cwd = os.path.join(workdir, f'repo_tests_{k}')
+        os.makedirs(cwd, exist_ok=True)
+        with open(os.path.join(cwd, 'biogeme.toml'), 'w') as f:
+            # a parameter file must exist: creating the default one fails with the installed tomlkit
+            f.write('[Estimation]\noptimization_algorithm = "automatic"\n')
+        log = os.path.join(workdir, f'c07_contracts_{k}.jsonl')
+        e = dict(os.environ)
+        e['C07_CONTRACT_LOG'] = log
+        e['PYTHONPATH'] = os.pathsep.join([env.SRC, env.VERIF, os.path.dirname(path), e.get('PYTHONPATH', '')])
+        e['PYTHONDONTWRITEBYTECODE'] = '1'
+        p = subprocess.Popen([sys.executable, '-m', 'pytest', '-q', '-p', 'no:cacheprovider', '-p', 'biomon.oracle.c07_pytest_plugin', path],
+                             cwd=cwd, env=e, stdout=open(os.path.join(workdir, f'repo_tests_{k}.txt'), 'w'), stderr=subprocess.STDOUT)
+        procs.append((p, rel, log))
+    deadline = time.monotonic() + REPO_TEST_TIMEOUT
+    results = []
+    calls = 0
+    for p, rel, log in procs:
+        cov = {'repo_test_files_run': 1}
+        try:
+            p.wait(timeout=max(1.0, deadline - time.monotonic()))
+        except subprocess.TimeoutExpired:
+            p.kill()
+            p.wait()
+            cov['repo_test_files_timed_out'] = 1
+        lines = []
+        if os.path.exists(log):
+            with open(log) as f:
+                for line in f:
+                    try:
+                        lines.append(json.loads(line))
+                    except Exception:  # noqa
+                        pass
+        for j, ln in enumerate(lines):
+            c = dict(cov) if j == 0 else {}
+            c['repo_test_estimations_under_contract'] = 1
+            if ln.get('monitor_error'):
+                c['repo_test_monitor_errors'] = 1
+            r = {'n': int(ln.get('n', 0)), 'keys': [stable_hash(['repo-test', rel, j, ln.get('test'), ln.get('algo'), ln.get('mode')])] if ln.get('n') else [],
+                 'viol': [dict(v, witness={'repo_test': ln.get('test'), 'file': rel, 'algorithm': ln.get('algo'), 'entry_point': ln.get('mode')})
+                          for v in ln.get('viol', [])],
+                 'cov': c, 'samples': [], 'inconclusive': [], '_case': {'repo_test_file': rel, 'call': j}}
+            if ln.get('n'):
+                calls += 1
+            results.append(r)
+        if not lines:
+            results.append({'n': 0, 'keys': [], 'viol': [], 'cov': cov, 'samples': [], 'inconclusive': [], '_case': {'repo_test_file': rel}})
+    if calls == 0:
+        results.append({'n': 0, 'keys': [], 'viol': [], 'cov': {}, 'samples': [],
+                        'inconclusive': ['repo-tests stage: no estimation was observed under the contracts'], '_case': {'repo_tests': 'stage'}})
+    return results
